@@ -624,6 +624,7 @@ func Gen(w *bufio.Writer, seed uint64, tier string) {
 			e.always(fmt.Sprintf("C11 ep %s jarsyn:%s -", en, v))
 		}
 	}
+	genZipSyn(e) // zipsyn.go: ZIP64 extra records of every size against every subset of announced fields
 	for _, l := range LibEntries {
 		for _, fam := range families {
 			e.always(fmt.Sprintf("C11 ep lib:%s %s -", l, fam.bases[0]))
